@@ -95,7 +95,8 @@ def live_tables():
 
 
 # ---------------------------------------------------------------- monitor 2
-from ..ref.names import MACH, applicable as _applicable
+from ..ref.names import MACH, RANGE_MARK, applicable as _applicable
+VENDORS = set(MACH) | {'SUNW', 'GNU', 'ANDROID', 'HP', 'IA', 'VERSYM', 'VERDEF', 'VERNEED'}
 CONTEXTS = [  # (label, e_machine, osabi)
     ('i386', 3, 0), ('x86-64', 62, 0), ('arm', 40, 0), ('aarch64', 183, 0), ('mips', 8, 0),
     ('riscv', 243, 0), ('ppc64', 21, 0), ('sparc-solaris', 2, 6),
@@ -125,8 +126,22 @@ def judge(sh, field, prefix, label, machine, osabi, code, observed):
     if isinstance(observed, str):
         vals = reg_values(observed)
         if not vals:
+            # a name only the library has; fine unless its own tables also hold the registries' name for this code
+            better = [n for n, v in libnames.items() if v == code and code in reg_values(n) and applicable(n, prefix, machine, osabi)
+                      and not RANGE_MARK.search(n) and n.split('_')[1] not in VENDORS]       # (what an OS-range code means depends on the OS)
+            if better and not (machine is not None and applicable(observed, prefix, machine, osabi) and any(
+                    observed.split('_')[1] == b.split('_')[1] for b in better)):
+                raise_m(sh, 'C17-parse:%s code %#x decoded as %s although the tables hold the registry name %s' % (
+                    field, code, observed, sorted(better)[0]), ctx=label)
+                return True
             sh.count('parse_unjudged_libonly_name')
             return False
+        if prefix == 'DT_' and RANGE_MARK.search(observed):
+            proper = [n for n, v in libnames.items() if v == code and code in reg_values(n) and not RANGE_MARK.search(n)
+                      and n.split('_')[1] not in VENDORS and applicable(n, prefix, machine, osabi)]
+            if proper:
+                raise_m(sh, 'C17-parse:%s code %#x decoded as the range limit %s although it is %s' % (field, code, observed, sorted(proper)[0]), ctx=label)
+                return True
         if code not in vals:
             raise_m(sh, 'C17-parse:%s:%s reported for code %#x, registry says %s' % (
                 field, observed, code, [hex(v) for v in vals]), ctx=label)
@@ -271,6 +286,12 @@ def dwarf_parse(sh, le, ci):
         nonlocal n
         if isinstance(observed, str):
             vals = reg_values(observed)
+            if not vals:
+                table = {'DW_TAG': DE.ENUM_DW_TAG, 'DW_AT': DE.ENUM_DW_AT, 'DW_FORM': DE.ENUM_DW_FORM}[what]
+                better = [k for k, v in table.items() if v == code and code in reg_values(k)]
+                if better:
+                    raise_m(sh, 'C17-parse:%s code %#x decoded as %s although the table holds the registry name %s' % (what, code, observed, better[0]))
+                return
             if vals and code not in vals:
                 raise_m(sh, 'C17-parse:%s %s reported for %#x, registry %s' % (what, observed, code, vals))
             elif vals:
